@@ -135,12 +135,13 @@ def replay_hist(ips, bases, c):
     return []
 
 
-def record_traces(ips, rng, n_traces, sizes, factors):
+def record_traces(ips, rng, n_traces, sizes, factors, n_long=4):
     traces = []
     skipped = 0
     while len(traces) < n_traces:
+        long_one = len(traces) < n_long              # a few histories of several hundred steps on small screens
         variant = "vk" if rng.random() < 0.5 else "fried"
-        req = int(rng.choice(sizes))
+        req = int(rng.choice(sizes if not long_one else [2, 3, 4]))
         f = 1 if variant == "vk" else int(rng.choice(factors))
         params = PARAMS[int(rng.integers(0, len(PARAMS)))]
         seed = int(rng.integers(0, 2 ** 31 - 1))
@@ -154,7 +155,7 @@ def record_traces(ips, rng, n_traces, sizes, factors):
         proj = Projector(obj, seed)
         evs = [event(proj, obj, "new")]
         ops = ["add_row"] * 5 + ["read", "asarray", "repr", "str"]
-        for _ in range(int(rng.integers(5, 41))):
+        for _ in range(int(rng.integers(5, 41)) if not long_one else 300):
             op = ops[int(rng.integers(0, len(ops)))]
             before = json.dumps(obj._R.bit_generator.state, sort_keys=True, default=str)
             do_op(obj, op)
